@@ -1,13 +1,17 @@
 (* The loader as it was BEFORE the commits
      2f69527 "fix: sparse file loader handles an empty index and a zero-length read at the end"
      0331e86 "fix: sparse file start-up replaces a saved state it did not use"
-     61c4b65 "fix: sparse file reader reports a store's io.EOF as an unexpected EOF".
+     61c4b65 "fix: sparse file reader reports a store's io.EOF as an unexpected EOF"
+     and the start-up reordering ("fix: sparse file start-up replaces the saved state before it resizes the cache file").
    Only the differences to Model/Sparse.v are written here, as wrappers around [step]:
      * indexRange tested `length < 1` BEFORE `firstChunk >= len(chunks)` and loadRange had no early return for an
        empty chunk list ([index_range_pre], the scan step of [step_pre]);
      * NewSparseFile left the saved state on disk when it did not use it ([restart_pre]);
      * ReadAt handed a store error that IS io.EOF to its caller unchanged: (0, io.EOF), the observation "end of file"
-       ([fix_eof] = false in [step_pre]). *)
+       ([fix_eof] = false in [step_pre]);
+     * NewSparseFile resized the cache file first and replaced the state last: a start-up that returned an error in
+       between (init file missing or of the wrong length) left the old state next to a blank full-size cache file
+       ([LFailedStart] with [fix_state] = false: the effect of [restart_pre] without pre-load). *)
 From Coq Require Import List NArith ZArith Arith Bool.
 From DS Require Import Base.Bytes Base.Hash Model.ReadSeeker Model.Sparse.
 Import ListNotations.
@@ -35,11 +39,11 @@ Section Pre.
   (* NewSparseFile before 0331e86: the path that does not load the state returns without touching the state file *)
   Definition restart_pre (s : sstate) (m : rmode) : sstate :=
     let s' := restart idx s m in
-    let cache := match m_cache m with CKeep => s_file s | CAbsent => [] | CResize k => resize (s_file s) k end in
+    let cache := if s_nofile s then [] else match m_cache m with CKeep => s_file s | CAbsent => [] | CResize k => resize (s_file s) k end in
     let usable := match s_saved s with Some b => m_state m && (List.length b =? n)%nat | None => false end in
     if (List.length cache =? L)%nat && usable then s'
     else mkstate (s_done s') (s_file s') (s_calls s') (s_mutex s') (s_saved s) (s_threads s') (s_log s')
-                 (s_crashed s') (s_fetched s').
+                 (s_crashed s') (s_nofile s') (s_fetched s').
 
   (* before 61c4b65: when the fetch of a reader fails with io.EOF itself, the caller observes (0, io.EOF) *)
   Definition eof_through (s : sstate) (k : nat) : option sstate :=
@@ -50,7 +54,7 @@ Section Pre.
             if N.eqb c code_bare_eof && negb (s_crashed s) then
               match step idx nullid store s (LThread k) with
               | Some s' => Some (mkstate (s_done s') (s_file s') (s_calls s') (s_mutex s') (s_saved s') (s_threads s')
-                                         ((RqRead off len, ROk [] true) :: s_log s) (s_crashed s') (s_fetched s'))
+                                         ((RqRead off len, ROk [] true) :: s_log s) (s_crashed s') (s_nofile s') (s_fetched s'))
               | None => None
               end
             else None
@@ -63,6 +67,9 @@ Section Pre.
   Definition step_pre (fix_range fix_state fix_eof : bool) (s : sstate) (l : label) : option sstate :=
     match l with
     | LRestart m => if fix_state then step idx nullid store s l else Some (restart_pre s m)
+    | LFailedStart m =>
+        if fix_state then step idx nullid store s l
+        else Some (restart_pre s (mkmode (m_state m) (m_cache m) false))
     | LThread k =>
         match (if fix_eof then None else eof_through s k) with
         | Some s' => Some s'
@@ -78,7 +85,7 @@ Section Pre.
               | Some (first, last) =>
                   match needed idx nullid (s_done s) first last with
                   | None => Some (mkstate (s_done s) (s_file s) (s_calls s) (s_mutex s) (s_saved s) (s_threads s)
-                                          (s_log s) true (s_fetched s))      (* index out of range: panic *)
+                                          (s_log s) true (s_nofile s) (s_fetched s))      (* index out of range: panic *)
                   | Some todo => Some (set_pc s k th (PNeed todo))
                   end
               end
